@@ -156,11 +156,12 @@ func checkC07(c C07Case, o *Obs) error {
 		if len(text) > 700 {
 			modes = faultModes[:4]
 		}
-		for _, m := range modes {
+		for mi, m := range modes {
 			runs++
-			fr := &fault.FailAfter{Data: text, K: k, Forever: m.forever, WithData: m.withData, Chunk: m.chunk}
+			ferr := fault.ErrKinds[(k+mi)%len(fault.ErrKinds)]
+			fr := &fault.FailAfter{Data: text, K: k, Forever: m.forever, WithData: m.withData, Chunk: m.chunk, Err: ferr}
 			items, over, p := collect(func(cb func(Item) bool) { codec.Reader(fr, cb) }, limit)
-			desc := fmt.Sprintf("%s: reader failing after %d of %d bytes (forever=%v, error with data=%v, chunk=%d)", c.Format, k, len(text), m.forever, m.withData, m.chunk)
+			desc := fmt.Sprintf("%s: reader failing with %q after %d of %d bytes (forever=%v, error with data=%v, chunk=%d)", c.Format, ferr, k, len(text), m.forever, m.withData, m.chunk)
 			if p != nil {
 				return fmt.Errorf("%s: panic %v (input %s)", desc, p, gen.Abbrev(text))
 			}
